@@ -513,3 +513,28 @@ func (fi *FuncInfo) ImpliesVersioned(at ssa.Instruction, mk func(at ssa.Instruct
 	}
 	return holds(b)
 }
+
+// DependsOn reports whether reaching b depends on the truth of atom: there are two assignments of the view's atoms,
+// both consistent, that differ in that atom only, of which one reaches b and the other does not. Use with ViewAll so
+// that no branch condition is projected away (a condition hidden behind a disjunction of paths is still found).
+func (v *PCView) DependsOn(b *ssa.BasicBlock, atom string) bool {
+	i, ok := v.idx[atom]
+	if !ok {
+		return false
+	}
+	pc := v.Block(b)
+	bit := 1 << uint(i)
+	for m := 0; m < 1<<uint(len(v.atoms)); m++ {
+		if !pc.get(m) {
+			continue
+		}
+		o := m ^ bit
+		if !pc.get(o) && v.axioms.get(o) {
+			return true
+		}
+	}
+	return false
+}
+
+// Atoms lists the atoms of the view.
+func (v *PCView) Atoms() []string { return v.atoms }
